@@ -32,6 +32,7 @@ def RUN(c):
 class Tick:
     def __await__(self):
         yield None
+class Boom(Exception): pass
 '''
 
 MEMBERS = '''\
@@ -122,7 +123,9 @@ def render(spec):
                      "        obj.v = 0\n        LOG.append(('new_exit',))\n        return obj\n")
             w.append("    def __init__(self):\n        LOG.append(('ctor_enter', 'Root'))\n        self.v = 1\n        LOG.append(('ctor_exit', 'Root'))\n")
         else:
-            w.append("    def __init__(self):\n        LOG.append(('ctor_enter', 'Root'))\n        self.v = 1\n        LOG.append(('ctor_exit', 'Root'))\n")
+            # boom=True: the constructor body raises (used for re-initialising an existing object: the error is the caller's to handle)
+            w.append("    def __init__(self, boom=False):\n        LOG.append(('ctor_enter', 'Root'))\n        self.v = 1\n"
+                     "        if boom:\n            LOG.append(('ctor_exit', 'Root'))\n            raise Boom()\n        LOG.append(('ctor_exit', 'Root'))\n")
         if style == "getattribute":
             w.append(GETATTRIBUTE)
         w.append(MEMBERS)
@@ -187,6 +190,7 @@ OPS = {
     "repr": ("never", lambda o, ns: repr(o), "__repr__"),
     "setattr": ("set", lambda o, ns: setattr(o, "v", 7), None),
     "read": ("never", lambda o, ns: o.v, None),
+    "reinit_boom": ("boom", lambda o, ns: o.__init__(True), None),
     "extra": ("call", lambda o, ns: o.extra(), "extra"),
     "_cprot": ("never", lambda o, ns: o._cprot(), "_cprot"),
 }
@@ -198,6 +202,8 @@ def ops_for(spec):
         ops = [o for o in ops if o not in ("setattr", "__bool__", "p.set", "p.del")]
     if spec["child"] and spec["child"]["adds"]:
         ops += ["extra", "_cprot"]
+    if spec["style"] in ("plain", "slots", "getattribute") and not spec["child"]:
+        ops += ["reinit_boom"]   # a constructor call on the existing object that fails in its body
     return ops
 
 
@@ -300,6 +306,13 @@ def judge_op(spec, opname, log, exc, falsy_k, call, sett):
     kind, _, bodyname = OPS[opname]
     invs = [ev[1] for ev in log if ev[0] == "inv"]
     bodies = [ev[1] for ev in log if ev[0] == "body" and ev[1] != "__getattribute__"]
+    if kind == "boom":
+        # the constructor raised: no invariant may be evaluated (construction has not finished) and the error is the body's
+        if invs:
+            return "invariant_during_construction", "{}: invariants {} evaluated although the constructor raised".format(opname, invs)
+        if type(exc).__name__ != "Boom":
+            return "operation_failed", "{}: expected the body's Boom, got {!r}".format(opname, exc)
+        return None
     if kind == "never":
         if invs:
             return "invariant_around_exempt_member", "{}: invariants {} evaluated".format(opname, invs)
@@ -358,7 +371,7 @@ def judge_op(spec, opname, log, exc, falsy_k, call, sett):
 
 def n_evals(spec, opname, call, sett):
     kind = OPS[opname][0]
-    if kind == "never":
+    if kind in ("never", "boom"):
         return 0
     if kind == "call":
         return 2 * len(call)
